@@ -8,10 +8,11 @@ open AsyncsshModel
 
 /-! ### one endpoint against an arbitrary (possibly hostile) peer -/
 
-def Hist.recordEv (h : Hist) : Ev → Hist
+/-- `c` = the endpoint before the event -/
+def Hist.recordEv (h : Hist) (c : Chan) : Ev → Hist
   | .write dt bs => { h with wr := h.wr ++ [(bs, dt)] }
-  | .close => { h with appClosed := true }
-  | .recv m => h.recordRecv m
+  | .close => { h with appClosed := true, dropped := h.dropped + evCredit .close c }
+  | .recv m => h.recordRecv m c
   | _ => h
 
 /-- one endpoint driven by ANY sequence of events — application calls and arbitrary incoming messages.
@@ -21,7 +22,7 @@ def runChan (c : Chan) (h : Hist) : List Ev → Option (Chan × Hist)
   | ev :: rest =>
     match step c ev with
     | .error e => if e.isApi then runChan c h rest else none
-    | .ok (c', ms, os) => runChan c' ((h.recordEv ev).record c c' ms os) rest
+    | .ok (c', ms, os) => runChan c' ((h.recordEv c ev).record c c' ms os) rest
 
 /-- the same run over the endpoint as it was before the fixes (witness theorems only) -/
 def runChanOld (c : Chan) (h : Hist) : List Ev → Option (Chan × Hist)
@@ -29,42 +30,47 @@ def runChanOld (c : Chan) (h : Hist) : List Ev → Option (Chan × Hist)
   | ev :: rest =>
     match stepOld c ev with
     | .error e => if e.isApi then runChanOld c h rest else none
-    | .ok (c', ms, os) => runChanOld c' ((h.recordEv ev).record c c' ms os) rest
+    | .ok (c', ms, os) => runChanOld c' ((h.recordEv c ev).record c c' ms os) rest
 
 structure AcctInv (c0 c : Chan) (h : Hist) : Prop where
   wf : WF c
   send : h.sentBytes + c.sendWindow = c0.sendWindow + h.adjIn
-  recvGe : c.recvWindow + bufBytes (dataOuts h.dl) ≥ c0.recvWindow + h.adjOut
-  recvEq : c.sendChanOpen = true → c.recvWindow + bufBytes (dataOuts h.dl) = c0.recvWindow + h.adjOut
+  recvGe : c.recvWindow + bufBytes (dataOuts h.dl) + h.dropped ≥ c0.recvWindow + h.adjOut
+  recvEq : c.sendChanOpen = true →
+    c.recvWindow + bufBytes (dataOuts h.dl) + h.dropped = c0.recvWindow + h.adjOut
   pkt : c.sendPktsize = c0.sendPktsize
   init : c.initWindow = c0.initWindow
 
 theorem acct_step (c0 c c' : Chan) (h : Hist) (ev : Ev) (ms : List Msg) (os : List Out)
     (hi : AcctInv c0 c h) (hs : step c ev = .ok (c', ms, os)) :
-    AcctInv c0 c' ((h.recordEv ev).record c c' ms os) := by
+    AcctInv c0 c' ((h.recordEv c ev).record c c' ms os) := by
   have ss := step_sum c c' ev ms os hi.wf hs
-  have hadj : ((h.recordEv ev).record c c' ms os).adjIn = h.adjIn + evAdjust ev := by
+  have hadj : ((h.recordEv c ev).record c c' ms os).adjIn = h.adjIn + evAdjust ev := by
     cases ev with
     | recv m => cases m <;> simp [Hist.recordEv, Hist.recordRecv, Hist.record, evAdjust]
     | _ => simp [Hist.recordEv, Hist.record, evAdjust]
-  have hsent : ((h.recordEv ev).record c c' ms os).sentBytes = h.sentBytes + bufBytes (dataOf ms) := by
+  have hsent : ((h.recordEv c ev).record c c' ms os).sentBytes = h.sentBytes + bufBytes (dataOf ms) := by
     cases ev with
     | recv m => cases m <;> simp [Hist.recordEv, Hist.recordRecv, Hist.record]
     | _ => simp [Hist.recordEv, Hist.record]
-  have hao : ((h.recordEv ev).record c c' ms os).adjOut = h.adjOut + adjustSum ms := by
+  have hao : ((h.recordEv c ev).record c c' ms os).adjOut = h.adjOut + adjustSum ms := by
     cases ev with
     | recv m => cases m <;> simp [Hist.recordEv, Hist.recordRecv, Hist.record]
     | _ => simp [Hist.recordEv, Hist.record]
-  have hdl : ((h.recordEv ev).record c c' ms os).dl = h.dl ++ os := by
+  have hdl : ((h.recordEv c ev).record c c' ms os).dl = h.dl ++ os := by
     cases ev with
     | recv m => cases m <;> simp [Hist.recordEv, Hist.recordRecv, Hist.record]
     | _ => simp [Hist.recordEv, Hist.record]
+  have hdr : ((h.recordEv c ev).record c c' ms os).dropped = h.dropped + evCredit ev c := by
+    cases ev with
+    | recv m => cases m <;> simp [Hist.recordEv, Hist.recordRecv, Hist.record, evCredit]
+    | _ => simp [Hist.recordEv, Hist.record, evCredit]
   refine ⟨step_wf _ _ _ _ _ hi.wf hs, ?_, ?_, ?_, ss.cfg.sendPktsize.trans hi.pkt, ss.cfg.initWindow.trans hi.init⟩
   · rw [hadj, hsent]; have := ss.sendWindow; have := hi.send; omega
-  · rw [hao, hdl, dataOuts_append, bufBytes_append]
+  · rw [hao, hdl, hdr, dataOuts_append, bufBytes_append]
     have := ss.winGe; have := hi.recvGe; push_cast; omega
   · intro hop
-    rw [hao, hdl, dataOuts_append, bufBytes_append]
+    rw [hao, hdl, hdr, dataOuts_append, bufBytes_append]
     have := ss.winEq hop; have := hi.recvEq (ss.openMono hop); push_cast; omega
 
 theorem acct_run : ∀ (evs : List Ev) (c0 c c' : Chan) (h h' : Hist), AcctInv c0 c h →
